@@ -17,17 +17,34 @@ def _strip_comments(src: str) -> str:
     return re.sub(r"--.*", "", src)
 
 
-def forbidden_constructs():
+def import_closure(mods):
+    """Files (relative module names) transitively imported from `mods` inside the JP library."""
+    seen, todo = set(), list(mods)
+    while todo:
+        m = todo.pop()
+        if m in seen or not m.startswith("JP"):
+            continue
+        path = os.path.join(core.LEAN_DIR, *m.split(".")) + ".lean"
+        if not os.path.exists(path):
+            continue
+        seen.add(m)
+        with open(path) as f:
+            for line in f:
+                mm = re.match(r"\s*import\s+(\S+)", line)
+                if mm:
+                    todo.append(mm.group(1))
+    return sorted(seen)
+
+
+def forbidden_constructs(mods):
     hits = []
-    for root, _, files in os.walk(os.path.join(core.LEAN_DIR, "JP")):
-        for fn in files:
-            if fn.endswith(".lean"):
-                p = os.path.join(root, fn)
-                with open(p) as f:
-                    src = _strip_comments(f.read())
-                for i, line in enumerate(src.splitlines(), 1):
-                    if FORBIDDEN.search(line):
-                        hits.append(f"{os.path.relpath(p, core.LEAN_DIR)}:{i}: {line.strip()[:100]}")
+    for m in import_closure(mods):
+        p = os.path.join(core.LEAN_DIR, *m.split(".")) + ".lean"
+        with open(p) as f:
+            src = _strip_comments(f.read())
+        for i, line in enumerate(src.splitlines(), 1):
+            if FORBIDDEN.search(line):
+                hits.append(f"{os.path.relpath(p, core.LEAN_DIR)}:{i}: {line.strip()[:100]}")
     return hits
 
 
@@ -63,7 +80,7 @@ def build_and_audit(pid: str, tier: str, modules=None, side_conditions=()):
         return st
     st["build_ok"] = True
     # 3. audit
-    hits = forbidden_constructs()
+    hits = forbidden_constructs(mods)
     audit_dir = os.path.join(core.LEAN_DIR, ".lake", "audit")
     os.makedirs(audit_dir, exist_ok=True)
     af = os.path.join(audit_dir, f"{pid}.lean")
